@@ -20,8 +20,8 @@ engine `nesting` (one `Nesting[int,int]` per case):
 The property oracles are naive references over the history of inserts; they never look at the
 model.
 -/
-namespace PCV.Engines
-open PCV.Wire PCV.Interval
+namespace PCV.Engines.IntervalEng
+open PCV PCV.Wire PCV.Interval
 
 def showVals (vs : List Int) : String := ",".intercalate (vs.map toString)
 
@@ -126,7 +126,7 @@ def intersectSpec (h : Hist) (line ans : String) : Hist × String :=
   | ["dump"] => (h, "skip")
   | _ => (h, "bad-op")
 
-def intersect : Engine :=
+def intersectEngine : Engine :=
   { σ := IMap, init := {}, step := intersectStep,
     τ := Hist, specInit := [], spec := intersectSpec }
 
@@ -190,8 +190,13 @@ def nestingSpec (h : Hist) (line ans : String) : Hist × String :=
     | none => (h, "fails bad-answer")
   | _ => (h, "bad-op")
 
-def nesting : Engine :=
+def nestingEngine : Engine :=
   { σ := Nest, init := {}, step := nestingStep,
     τ := Hist, specInit := [], spec := nestingSpec }
 
+end PCV.Engines.IntervalEng
+
+namespace PCV.Engines
+def intersect : Engine := IntervalEng.intersectEngine
+def nesting : Engine := IntervalEng.nestingEngine
 end PCV.Engines
